@@ -1,6 +1,7 @@
 """Shared driver for the group functions (C11, C12): real pools, perturbed completion order,
 placement observed by matching every returned table against directly computed candidates."""
 import os
+import random as _random
 import sys
 import tempfile
 import time
@@ -11,9 +12,16 @@ from harness.core import exc_kind
 
 COQ_HEADER = ('From Coq Require Import List Arith NArith. Import ListNotations.\n'
               'From ByC Require Import Base.Result Harness.Compare Model.Group.')
-COQ_RUNNER = 'bad_group'
+COQ_RUNNER = 'bad_group / bad_group_object'
 COQ_TYPES = ('gcase', 'list (list (nat * nat * nat))')
 SHARD = 400
+# two correspondence streams: calls of the functions (one gcase -> the placement matrix of the returned tables) and
+# histories of fits on ONE BycycleGroup object (list of gcase -> placement of df_features and, per model, the
+# placement of the table and the id of the signal it holds)
+COQ_STREAMS = {
+    'func': (COQ_HEADER, 'bad_group', COQ_TYPES, SHARD),
+    'object': (COQ_HEADER, 'bad_group_object', ('list gcase', 'gobs'), SHARD),
+}
 FS, FR = 100, (3, 8)
 MISSING = 777
 
@@ -49,12 +57,187 @@ def kw_term(mode, kw):
     return 'GShared'
 
 
-def option_set(a, rs_key=None):
-    """Fresh copy of option set a of the pool; rs_key True/False adds a 'return_samples' entry (documented: ignored)."""
-    kw = {k: (dict(v) if isinstance(v, dict) else v) for k, v in KW_POOL[a].items()}
+def shuffled(krng, d):
+    """Same dictionary, insertion order drawn from krng (None: unchanged)."""
+    if krng is None:
+        return dict(d)
+    items = list(d.items())
+    krng.shuffle(items)
+    return dict(items)
+
+
+def option_set(a, rs_key=None, krng=None):
+    """Fresh copy of option set a of the pool; rs_key True/False adds a 'return_samples' entry (documented: ignored);
+    with krng the insertion order of the dictionary and of its nested dictionaries is shuffled (a caller does not write
+    keys in any canonical order, e.g. min_n_cycles may come first)."""
+    kw = {k: (shuffled(krng, v) if isinstance(v, dict) else v) for k, v in KW_POOL[a].items()}
     if rs_key is not None:
         kw['return_samples'] = bool(rs_key)
-    return kw
+    return shuffled(krng, kw)
+
+
+def key_rng(c):
+    """Per-case generator for dictionary insertion orders (derived from the case, hence from the run's rng)."""
+    return _random.Random(c['kseed']) if c.get('kseed') is not None else None
+
+
+# ---------------------------------------------------------------------------------------------------------
+# histories on one BycycleGroup object: earlier fits on DECOY arrays of another shape, then the judged fit
+
+DECOY_SIG0 = 40          # decoy signals are make_sig(40..): never equal to a judged signal (ids < 40)
+AX3 = {0: 0, 1: 1, 2: (0, 1)}
+
+
+def gen_decoys(rng, shape):
+    """1-2 earlier fits for an object whose judged fit is on an array of first dimensions `shape` ((n0,) or (n0, n1)):
+    each on an array of a DIFFERENT shape - more rows, fewer rows, another n1, or the other dimensionality (2-D before
+    3-D and the reverse) - with its own signals.  Encoded like the judged call (nd, n0, n1, ax)."""
+    out = []
+    for _ in range(rng.choice([1, 1, 2])):
+        for _try in range(20):
+            kind = rng.choice(['more', 'fewer', 'other_n1', 'other_nd'])
+            nd = len(shape) + 1
+            n0, n1 = shape[0], (shape[1] if len(shape) == 2 else None)
+            if kind == 'more':
+                n0 = n0 + rng.choice([1, 2])
+            elif kind == 'fewer':
+                n0 = rng.randint(1, max(1, n0 - 1))
+            elif kind == 'other_n1':
+                nd, n1 = 3, rng.choice([x for x in (1, 2, 3, 4) if x != n1])
+            else:
+                nd = 2 if nd == 3 else 3
+                n0 = rng.choice([1, 2, 3, 4])
+                n1 = rng.choice([1, 2, 3]) if nd == 3 else None
+            n0 = min(n0, 4 if nd == 3 else 8)
+            if nd == 2:
+                n1 = None
+            elif n1 is None:
+                n1 = rng.choice([1, 2, 3])
+            if ((n0,) if nd == 2 else (n0, n1)) != tuple(shape):
+                break
+        else:
+            continue
+        out.append({'nd': nd, 'n0': n0, 'n1': n1, 'ax': 0 if nd == 2 else rng.choice([0, 1, 2]),
+                    'first_sig': DECOY_SIG0 + rng.randrange(60), 'n_jobs': rng.choice([1, 1, 1, 2])})
+    return out
+
+
+def run_decoys(bg, history):
+    """Fit the object on every decoy array (undelayed workers, no progress bar)."""
+    for d in history or []:
+        n = d['n0'] * (d['n1'] or 1)
+        sigs = np.array([make_sig(d['first_sig'] + q) for q in range(n)])
+        if d['nd'] == 3:
+            sigs = sigs.reshape(d['n0'], d['n1'], -1)
+        bg.fit(sigs, FS, FR, axis=(0 if d['nd'] == 2 else AX3[d['ax']]), n_jobs=d['n_jobs'])
+
+
+def decoy_term(d):
+    """Coq gcase of a decoy fit (identity completion order, the object's shared option dictionary)."""
+    if d['nd'] == 2:
+        return '(G2 %s GShared %d%%nat)' % (nat_list(range(d['n0'])), d['n0'])
+    ntasks = {0: d['n0'], 1: d['n1'], 2: d['n0'] * d['n1']}[d['ax']]
+    return '(G3 %d%%nat %s GShared %d%%nat %d%%nat)' % (d['ax'], nat_list(range(ntasks)), d['n0'], d['n1'])
+
+
+def observe_object(bg, sigs, cands, want):
+    """What a user sees on the group object after the judged fit.  sigs: the judged array (2-D or 3-D); cands: candidate
+    tables; want: expected placement triples, nested like the array's first dimensions (2-D: one flat list).
+    Returns a JSON-able dict: len(bg), the shape of bg.models, per model the placement triple of the table it holds and
+    the row-major index of the judged signal it holds (MISSING when it holds neither), and whether bg[i] / bg[i][j] and
+    iteration give the models of bg.models."""
+    three = sigs.ndim == 3
+    flat = sigs.reshape(-1, sigs.shape[-1])
+    n1 = sigs.shape[1] if three else None
+    out = {}
+    try:
+        out['len'] = len(bg)
+    except Exception as e:
+        out['len'] = 'raised ' + type(e).__name__
+    models = bg.models
+    rows = list(models) if three else [list(models)]
+
+    def one(m, i, j):
+        pos = (i * n1 + j) if three else j
+        if not hasattr(m, 'df_features') or not hasattr(m.df_features, 'columns'):
+            return [[MISSING] * 3, MISSING]
+        try:
+            prefer = tuple(want[i][j]) if three else tuple(want[j])
+        except (IndexError, TypeError):
+            prefer = (MISSING,) * 3
+        t = match(m.df_features, cands, prefer)
+        msig = np.asarray(m.sig)
+        if pos < len(flat) and np.array_equal(msig, flat[pos]):
+            sid = pos
+        else:
+            hit = [q for q in range(len(flat)) if np.array_equal(msig, flat[q])]
+            sid = hit[0] if hit else MISSING
+        return [t, sid]
+    obs = []
+    for i, row in enumerate(rows):
+        if not isinstance(row, list):
+            obs.append([[[MISSING] * 3, MISSING]])
+            continue
+        obs.append([one(m, i, j) for j, m in enumerate(row)])
+    out['models'] = obs
+    out['models_shape'] = [len(rows), [len(r) if isinstance(r, list) else -1 for r in rows]] if three else [len(rows[0])]
+
+    def same_model(a, b):
+        if a is b:
+            return True
+        try:
+            return same_table(a.df_features, b.df_features) and np.array_equal(np.asarray(a.sig), np.asarray(b.sig))
+        except Exception:
+            return False
+    try:
+        if three:
+            out['getitem_ok'] = all(same_model(bg[i][j], models[i][j]) for i in range(len(models)) for j in range(len(models[i])))
+            it = list(bg)
+            out['iter_ok'] = len(it) == len(models) and all(len(a) == len(b) and all(same_model(x, y) for x, y in zip(a, b))
+                                                             for a, b in zip(it, models))
+        else:
+            out['getitem_ok'] = all(same_model(bg[i], models[i]) for i in range(len(models)))
+            it = list(bg)
+            out['iter_ok'] = len(it) == len(models) and all(same_model(x, y) for x, y in zip(it, models))
+    except Exception as e:
+        out['getitem_ok'] = out['iter_ok'] = False
+        out['access_error'] = type(e).__name__
+    return out
+
+
+def object_problem(obj, shape, want):
+    """Statement oracle for the object after the judged fit: len / models have the array's first dimensions, every model
+    holds the analysis of its own signal and that signal.  want nested like the array (2-D: flat list of triples)."""
+    three = len(shape) == 2
+    n0 = shape[0]
+    if obj['len'] != n0:
+        return 'len(group object) is %s, but the fitted array has %d rows' % (obj['len'], n0)
+    if three:
+        if obj['models_shape'][0] != n0 or any(x != shape[1] for x in obj['models_shape'][1]):
+            return 'models has shape %s, but the fitted array has first dimensions %s' % (obj['models_shape'], list(shape))
+    elif obj['models_shape'] != [n0]:
+        return 'models has %d entries, but the fitted array has %d rows' % (obj['models_shape'][0], n0)
+    rows = want if three else [want]
+    for i, row in enumerate(rows):
+        for j, w in enumerate(row):
+            t, sid = obj['models'][i][j]
+            pos = (i * shape[1] + j) if three else j
+            where = '[%d][%d]' % (i, j) if three else '[%d]' % j
+            if list(t) != list(w):
+                return 'models%s holds the table (options, slice/signal, epoch) = %s, expected %s' % (where, t, list(w))
+            if sid != pos:
+                return 'models%s holds signal %s of the fitted array, expected its own (%d)' % (
+                    where, 'none' if sid == MISSING else sid, pos)
+    if not obj.get('getitem_ok'):
+        return 'indexing the group object does not give the model of that position'
+    if not obj.get('iter_ok'):
+        return 'iterating the group object does not give the models position by position'
+    return None
+
+
+def coq_models(obs):
+    rows = [coqio.lst(['((%d, %d, %d)%%nat, %d%%nat)' % (t[0], t[1], t[2], sid) for t, sid in row]) if row else 'nil' for row in obs]
+    return coqio.lst(rows) if rows else 'nil'
 
 
 def make_sig(k, n=220):
